@@ -32,6 +32,7 @@ CHECKS = {
     "C02": {"crate": "h_store", "bin": "c02", "level": "fault_enumeration", "legs": [
         native(),
         script("strace-ack", "legs_fsync", "c02_leg"),
+        asan(tiers=["thorough"], args={"thorough": {"budget-s": 240, "images": 24, "chains": 1, "threads": 8}}),
     ]},
     "C17": {"crate": "h_chain", "bin": "c17", "level": "exploration", "legs": [native()]},
 }
